@@ -505,49 +505,9 @@ def r16_2(F, R):
 
 
 def r16_5(F, R):
-    from ..pps import Discharger, INT_RANGE
-    R.rule("R16.5", "no value-changing integer narrowing in the DVI codec: every `as` cast to a narrower (or differently signed, smaller-range) integer type "
-                    "in dvi::serialize / dvi::deserialize is dominated by comparisons that keep the source inside the target's range, or keeps all bits on "
-                    "purpose (same-width reinterpretation); a length or operand that is silently truncated no longer decodes to the operation that was encoded")
-    n = 0
-    seen_k = {}
-    for fn in sorted(F.fns.values(), key=lambda f: f.name):
-        if fn.crate != "dvi.lib" or not (fn.file.endswith("dvi/src/serialize.rs") or fn.file.endswith("dvi/src/deserialize.rs")) or "::tests::" in fn.name:
-            continue
-        D = None
-        for bi, b in enumerate(fn.blocks):
-            if b.get("cleanup"):
-                continue
-            for st in b["s"]:
-                if st["k"] != "=" or st["rv"]["k"] != "cast" or st["rv"].get("ck") != "IntToInt" or st.get("exp"):
-                    continue
-                sp = op_place(st["rv"]["op"])
-                if sp is None or sp["p"] or st["lhs"]["p"]:
-                    continue
-                sty, dty = fn.local_ty(sp["l"]), fn.local_ty(st["lhs"]["l"])
-                if sty not in INT_RANGE or dty not in INT_RANGE:
-                    continue
-                n += 1
-                s, d = INT_RANGE[sty], INT_RANGE[dty]
-                k = (strip_generics(fn.name), sty, dty)
-                seen_k[k] = seen_k.get(k, -1) + 1
-                inst = "%s/%s->%s#%d" % (strip_generics(fn.name).replace("dvi::", ""), sty, dty, seen_k[k])
-                if d[0] <= s[0] and s[1] <= d[1]:
-                    R.ok("R16.5", inst, "widening", fn.loc(st), how="type")
-                    continue
-                if (s[1] - s[0]) == (d[1] - d[0]):
-                    R.ok("R16.5", inst, "same-width reinterpretation (all bits kept)", fn.loc(st), how="type")
-                    continue
-                D = D or Discharger(F, fn)
-                src = D.src_local(st["rv"]["op"])
-                lo, hi = D.range_of(src["l"], bi) if src is not None and not src["p"] else (None, None)
-                if lo is not None and hi is not None and d[0] <= lo and hi <= d[1]:
-                    R.ok("R16.5", inst, "source in [%d, %d] by dominating guards" % (lo, hi), fn.loc(st), how="guard")
-                else:
-                    R.violation("R16.5", inst, "%s narrows %s to %s with `as` where the source is only known to lie in %s: values outside %s..=%s are silently "
-                                "truncated, so the bytes written/read no longer correspond to the operation" % (
-                                    fn.name, sty, dty, "[%s, %s]" % (lo if lo is not None else s[0], hi if hi is not None else s[1]), d[0], d[1]), fn.loc(st))
-    R.floor("R16.5", "integer casts in the DVI codec", n, 5)
+    from .common import narrowing_rule
+    narrowing_rule(F, R, "R16.5", "the DVI codec (dvi::serialize / dvi::deserialize)",
+                   lambda fn: fn.crate == "dvi.lib" and (fn.file.endswith("dvi/src/serialize.rs") or fn.file.endswith("dvi/src/deserialize.rs")), 5)
 
 
 def r16_6(F, R):
